@@ -89,30 +89,39 @@ Record rwriter := mkRW
     rlive : hdrs;                   (* w.Header(), the live map *)
     rres : option (Z * hdrs);       (* status line + headers frozen by the first final WriteHeader / Write / Flush *)
     rbody : list Z;
-    rinfo : list (Z * hdrs) }.      (* 1xx informational responses already sent, each with the headers of that moment *)
+    rinfo : list (Z * hdrs);        (* 1xx informational responses already sent, each with the headers of that moment *)
+    rcode : Z }.                    (* what the OUTER middlewares record (response.WithCodeResponseWriter.Code of
+                                       the breaker / log / metrics / trace handlers in front): the argument of the
+                                       last WriteHeader call that reached this writer, 200 before any; a Write or
+                                       Flush does not change it, a superfluous WriteHeader does *)
 
-Definition rw_fresh (fl : bool) (h0 : hdrs) : rwriter := mkRW fl h0 None [] [].
+Definition rw_fresh (fl : bool) (h0 : hdrs) : rwriter := mkRW fl h0 None [] [] 200.
 
 Definition rw_hdr (f : hdrs -> hdrs) (w : rwriter) : rwriter :=
-  mkRW (rfl w) (f (rlive w)) (rres w) (rbody w) (rinfo w).
+  mkRW (rfl w) (f (rlive w)) (rres w) (rbody w) (rinfo w) (rcode w).
 
 (* net/http: 100..199 except 101 are sent at once, do not end the header phase and do
    not clear the header map *)
 Definition is_info (c : Z) : bool := (100 <=? c) && (c <=? 199) && negb (c =? 101).
 
-Definition rw_wh (c : Z) (w : rwriter) : rwriter :=
+(* what a status does to the wire: nothing once the header is out *)
+Definition rw_commit (c : Z) (w : rwriter) : rwriter :=
   match rres w with
   | Some _ => w
   | None =>
-    if is_info c then mkRW (rfl w) (rlive w) None (rbody w) (rinfo w ++ [(c, rlive w)])
-    else mkRW (rfl w) (rlive w) (Some (c, rlive w)) (rbody w) (rinfo w)
+    if is_info c then mkRW (rfl w) (rlive w) None (rbody w) (rinfo w ++ [(c, rlive w)]) (rcode w)
+    else mkRW (rfl w) (rlive w) (Some (c, rlive w)) (rbody w) (rinfo w) (rcode w)
   end.
 
+(* an explicit WriteHeader(c) call: the wire as above, and the outer record becomes c *)
+Definition rw_wh (c : Z) (w : rwriter) : rwriter :=
+  let w' := rw_commit c w in mkRW (rfl w') (rlive w') (rres w') (rbody w') (rinfo w') c.
+
 Definition rw_write (bs : list Z) (w : rwriter) : rwriter :=
-  let w' := rw_wh 200 w in mkRW (rfl w') (rlive w') (rres w') (rbody w' ++ bs) (rinfo w').
+  let w' := rw_commit 200 w in mkRW (rfl w') (rlive w') (rres w') (rbody w' ++ bs) (rinfo w') (rcode w').
 
 (* http.Flusher.Flush of the real writer: sends the header if it was not sent *)
-Definition rw_flush (w : rwriter) : rwriter := if rfl w then rw_wh 200 w else w.
+Definition rw_flush (w : rwriter) : rwriter := if rfl w then rw_commit 200 w else w.
 
 (* ------------------------------------------------------------------ *)
 (* timeoutWriter{h, wbuf, code, wroteHeader, flushed} (timedOut kept separately)  *)
@@ -185,7 +194,7 @@ Definition timeout_write (k : kind) (w : rwriter) : rwriter :=
   rw_write reason (rw_wh (timeout_code k) w).
 
 Definition timeout_resp (fl : bool) (h0 : hdrs) (k : kind) : rwriter :=
-  mkRW fl h0 (Some (timeout_code k, h0)) reason [].
+  mkRW fl h0 (Some (timeout_code k, h0)) reason [] (timeout_code k).
 
 (* ------------------------------------------------------------------ *)
 (* the LTS for timeoutHandler.ServeHTTP (non-exempt request)            *)
@@ -394,7 +403,7 @@ Definition spec_view (fl : bool) (h0 : hdrs) (acts : list act) : view :=
 (* without an effective Flush the whole writer is described (live map included) *)
 Definition spec_complete (fl : bool) (h0 : hdrs) (acts : list act) : rwriter :=
   let h := overlay h0 (spec_hdrs acts) in
-  mkRW fl h (Some (spec_status false acts, h)) (spec_body acts) [].
+  mkRW fl h (Some (spec_status false acts, h)) (spec_body acts) [] (spec_status false acts).
 
 (* does executing [acts] (deadline not hit) end in a panic, and which *)
 Fixpoint spec_panic (fl : bool) (wrote : bool) (acts : list act) : option pval :=
@@ -449,7 +458,7 @@ Definition rw_act (w : rwriter) (a : act) : rwriter * ares :=
   | ADel k => (rw_hdr (hdel k) w, RNone)
   | AWriteHeader c =>
     match rres w with
-    | Some _ => (w, RNone)
+    | Some _ => (rw_wh c w, RNone)     (* superfluous for the wire; the outer record still takes it *)
     | None => if bad_code_rw c then (w, RPanic (PBadCode c)) else (rw_wh c w, RNone)
     end
   | AWrite bs => (rw_write bs w, RWriteOk (len bs))
